@@ -11,7 +11,7 @@ import numpy as np
 
 from vlib.common import CaseResult, liesel_call, rng_for
 from vlib.enginelab import drive, first_posterior_time, gen_probe_case, kid, stored_times
-from vlib.probes import ProbeKernel, total_time
+from vlib.probes import ProbeKernel, ProbeKernelB, total_time
 
 ID = "C19"
 RULE = (
@@ -34,7 +34,7 @@ ASSUMPTIONS = [
     "Summary needs a posterior epoch; schedules without one are judged through the error log only",
 ]
 WORKERS = 16
-TIMEOUT = {"quick": 1200, "thorough": 3600}
+TIMEOUT = {"quick": 1500, "thorough": 10800}
 
 
 def tables(case):
@@ -69,6 +69,10 @@ def check_log(res, case, log, tabs, t_lo, t_hi, which):
                           f"{exp_codes.tolist()}", case)
         if kel.kernel_ident != kid_:
             res.violation("error-log", f"kernel ident {kel.kernel_ident} != {kid_}", case)
+        exp_cls = ProbeKernelB if ki % 2 else ProbeKernel
+        if kel.kernel_cls.is_some() and kel.kernel_cls.unwrap() is not exp_cls:
+            res.violation("error-log-class", f"error log of {kid_} carries class {kel.kernel_cls.unwrap().__name__}, the kernel is a "
+                          f"{exp_cls.__name__}", case)
 
 
 def run_case(case):
@@ -129,9 +133,10 @@ def run_case(case):
                                       f"{None if e.count_per_chain_posterior is None else np.asarray(e.count_per_chain_posterior).tolist()} "
                                       f"!= {post.tolist()}", case)
                     res.mon("summary_messages")
-                    if e.error_msg != ProbeKernel.error_book[code] or int(e.error_code) != code:
-                        res.violation("summary-message", f"{kid_} code {code}: message {e.error_msg!r}, error book says "
-                                      f"{ProbeKernel.error_book[code]!r}", case)
+                    book = (ProbeKernelB if ki % 2 else ProbeKernel).error_book
+                    if e.error_msg != book[code] or int(e.error_code) != code:
+                        res.violation("summary-message", f"{kid_} code {code}: message {e.error_msg!r}, the kernel's error book says "
+                                      f"{book[code]!r}", case)
             # data frames
             for per_chain in (True, False):
                 df = summ.error_df(per_chain=per_chain)
@@ -143,9 +148,9 @@ def run_case(case):
                             cnt = (tab[:, sl] == code).sum(axis=1)
                             if per_chain:
                                 for c in range(C):
-                                    exp_rows[(kid(ki), code, ProbeKernel.error_book[code], phase, c)] = int(cnt[c])
+                                    exp_rows[(kid(ki), code, (ProbeKernelB if ki % 2 else ProbeKernel).error_book[code], phase, c)] = int(cnt[c])
                             else:
-                                exp_rows[(kid(ki), code, ProbeKernel.error_book[code], phase)] = int(cnt.sum())
+                                exp_rows[(kid(ki), code, (ProbeKernelB if ki % 2 else ProbeKernel).error_book[code], phase)] = int(cnt.sum())
                 got_rows = {}
                 if not df.empty:
                     for idx, row in df.iterrows():
